@@ -44,6 +44,12 @@ def main():
                     extra = [n for n in names if n not in getattr(P, "ALLOWED_AXIOMS", [])]
                     if extra or a == "<missing>":
                         proof_broken = f"theorem {t} depends on {extra or a}"
+    # thorough tier: the compiled property module and everything it depends on re-checked by the independent checker
+    if tier == "thorough" and not proof_broken and not replay:
+        cok, csum = hl.coqchk(P.COQ_MODULE)
+        notes.append(csum)
+        if not cok:
+            proof_broken = csum
     obligations = len(P.THEOREMS)
     discharged = 0 if proof_broken else obligations
 
